@@ -8,7 +8,7 @@ The BUILT executable csg_imc_solve is run on generated group matrix (.gmc), upda
 
   N=2 : every A in {-1,0,1,2}^(2x2) x b-set x r in {0.1,1,1000} x every index split
   N=3 : every A in {0,1}^(3x3) (quick) / additionally every A in {-1,0,1}^(3x3) (thorough)
-  N=4 : every A in {0,1}^(4x4) (thorough), three interactions
+  N=4 : every upper and every lower triangular A in {0,1}^(4x4) (thorough), three interactions
 Index splits include contiguous ranges, single rows, comma lists ("1,3") and strides
 ("1:2:3"), i.e. 1, 2 and 3 interactions per file.
 
@@ -177,9 +177,15 @@ def enumerate_cases(tier):
                 continue  # done above
             A = [list(flat[0:3]), list(flat[3:6]), list(flat[6:9])]
             yield A, [1, 2, -1], "0.1", 3
-        for flat in itertools.product(U2, repeat=16):
-            A = [list(flat[i * 4:(i + 1) * 4]) for i in range(4)]
-            yield A, [1, -1, 2, 1], "1", 0
+        seen = set()
+        for flat in itertools.product(U2, repeat=10):   # all upper and all lower triangular 0/1 matrices
+            it = iter(flat)
+            U = [[next(it) if j >= i else 0 for j in range(4)] for i in range(4)]
+            for A in (U, transpose(U)):
+                key = tuple(map(tuple, A))
+                if key not in seen:
+                    seen.add(key)
+                    yield [list(r) for r in A], [1, -1, 2, 1], "1", 0
 
 
 def main():
@@ -196,7 +202,7 @@ def main():
     R = pybsx.Report("C06", "imc", a.tier)
     R.rule = ("csg_imc_solve executable on generated .gmc/.imc/.idx files: N=2 every A in {-1,0,1,2}^(2x2) x b-set x r in {0.1,1,1000} x "
               "both index splits; N=3 every A in {0,1}^(3x3) x b-set x r-set x 6 index splits (ranges, single rows, comma list, stride; "
-              "1..3 interactions)" + ("; N=3 every other A in {-1,0,1}^(3x3); N=4 every A in {0,1}^(4x4) with 3 interactions"
+              "1..3 interactions)" + ("; N=3 every other A in {-1,0,1}^(3x3); N=4 every upper/lower triangular A in {0,1}^(4x4) with 3 interactions"
                                       if a.tier == "thorough" else "") +
               ". Oracle: exact rational solution of (A^T A + r I)x = -A^T b from the file contents; each <name>.dpot.imc must hold exactly "
               "the rows of its index range (x column of the .imc file, flag i) with y equal to the solution to the printed 10 digits. "
